@@ -63,10 +63,9 @@ func (a *application) start(mode gen.ApplicationMode, options gen.ApplicationOpt
 
 		pid, err := a.node.spawn(item.Factory, opts)
 		if err != nil {
-			a.group.Range(func(pid gen.PID, _ bool) bool {
+			for _, pid := range a.members() {
 				a.node.Kill(pid)
-				return true
-			})
+			}
 			atomic.StoreInt32(&a.state, int32(gen.ApplicationStateLoaded))
 			return err
 		}
@@ -121,14 +120,13 @@ func (a *application) stop(force bool, timeout time.Duration) error {
 	// update mode to prevent triggering 'permantent' mode
 	a.mode = gen.ApplicationModeTemporary
 
-	a.group.Range(func(pid gen.PID, _ bool) bool {
+	for _, pid := range a.members() {
 		if force {
 			a.node.Kill(pid)
 		} else {
 			a.node.SendExit(pid, gen.TerminateReasonShutdown)
 		}
-		return true
-	})
+	}
 
 	if force {
 		a.reason = gen.TerminateReasonKill
@@ -224,6 +222,18 @@ func (a *application) terminate(pid gen.PID, reason error) {
 		return
 	}
 	a.registerAppRoute() // new state for the app
+}
+
+// members returns a snapshot of the group. Killing a sleeping process terminates it
+// in the caller's goroutine, which ends up in a.terminate and removes it from the
+// group, so members must not be killed from within a.group.Range (it holds the lock).
+func (a *application) members() []gen.PID {
+	var pids []gen.PID
+	a.group.Range(func(pid gen.PID, _ bool) bool {
+		pids = append(pids, pid)
+		return true
+	})
+	return pids
 }
 
 func (a *application) info() gen.ApplicationInfo {
